@@ -1,7 +1,7 @@
 //! tv: one binary, one sub-command per engine.
 //! Output protocol: lines starting with "@@" are JSON records for the driver (/verif/check).
 use tv::util::*;
-use tv::{cmp, conc, ctor, faults, hist, shadow, thin, tk};
+use tv::{cmp, conc, ctor, faults, hist, overflow, shadow, thin, tk, uninit};
 
 
 fn main() {
@@ -21,6 +21,11 @@ fn main() {
         "ctor" => engine_ctor(&args),
         "faults" => engine_faults(&args),
         "cmp" => engine_cmp(&args),
+        "uninit" => engine_uninit(&args),
+        "overflow" => engine_overflow(&args),
+        #[cfg(feature = "full")]
+        "serde" => engine_serde(&args),
+        "ovchild" => overflow::child(args.u64("entry", 0) as usize, args.u64("start", 1) as usize),
         "allocchild" => faults::alloc_child(args.u64("site", 0) as usize, args.u64("nth", 1) as i64),
         other => {
             eprintln!("unknown engine {:?}", other);
@@ -412,5 +417,136 @@ fn engine_cmp(args: &Args) -> i32 {
         1
     } else {
         0
+    }
+}
+
+fn uninit_dispatch(pair: usize, len: usize, mask: u64, path: usize, st: &mut uninit::UStats) -> R {
+    match pair {
+        0 => uninit::slice_case::<tk::T8, tk::T8>(len, mask, path, st),
+        1 => uninit::slice_case::<tk::Z, tk::T8>(len, mask, path, st),
+        2 => uninit::slice_case::<tk::T8, tk::TB>(len, mask, path, st),
+        3 => uninit::slice_case::<tk::T32, tk::T1>(len, mask, path, st),
+        4 => uninit::slice_case::<tk::T8, tk::Z>(len, mask, path, st),
+        _ => uninit::slice_case::<tk::T64, tk::T32>(len, mask, path, st),
+    }
+}
+
+fn engine_uninit(args: &Args) -> i32 {
+    let seed = args.u64("seed", 1);
+    let shard = args.u64("shard", 0);
+    let nshards = args.u64("nshards", 1).max(1);
+    let maxlen = args.u64("maxlen", 33) as usize;
+    let mut rng = Rng::new(seed);
+    let mut st = uninit::UStats::new();
+    let mut nviol = 0;
+    let mut idx = 0u64;
+    let mut run = |r: R, case: String, nviol: &mut i32| {
+        if let Err(v) = r {
+            if *nviol < 6 {
+                emit_violation(&v, "uninit", seed, &case, &[]);
+            }
+            *nviol += 1;
+        }
+    };
+    for pair in 0..6 {
+        for len in 0..=maxlen {
+            let masks: Vec<u64> = if len <= 4 {
+                (0..(1u64 << len)).collect()
+            } else {
+                let all = if len >= 64 { u64::MAX } else { (1u64 << len) - 1 };
+                vec![0, all, rng.next() & all, rng.next() & all, 1, 1 << (len - 1)]
+            };
+            for path in 0..uninit::SLICE_PATHS {
+                idx += 1;
+                if idx % nshards != shard {
+                    continue;
+                }
+                if path >= 3 {
+                    run(uninit_dispatch(pair, len, u64::MAX, path, &mut st), format!("pair={} len={} path={}", pair, len, path), &mut nviol);
+                } else {
+                    for &m in &masks {
+                        run(uninit_dispatch(pair, len, m, path, &mut st), format!("pair={} len={} mask={:#b} path={}", pair, len, m, path), &mut nviol);
+                    }
+                }
+            }
+        }
+    }
+    if shard == 0 {
+        for path in 0..uninit::SIZED_PATHS {
+            run(uninit::sized_case::<tk::T8>(path, &mut st), format!("sized T8 path={}", path), &mut nviol);
+            run(uninit::sized_case::<tk::T32>(path, &mut st), format!("sized T32 path={}", path), &mut nviol);
+            run(uninit::sized_case::<tk::TB>(path, &mut st), format!("sized TB path={}", path), &mut nviol);
+            run(uninit::sized_case::<tk::T1>(path, &mut st), format!("sized T1 path={}", path), &mut nviol);
+            run(uninit::sized_case::<tk::Z>(path, &mut st), format!("sized Z path={}", path), &mut nviol);
+            run(uninit::sized_case::<tk::T64>(path, &mut st), format!("sized T64 path={}", path), &mut nviol);
+        }
+    }
+    println!(
+        "@@{{\"t\":\"stats\",\"engine\":\"uninit\",\"counts\":{},\"sets\":{{\"uninit_cases\":{}}},\"shadow\":{},\"checked_frees\":{},\"sample\":{}}}",
+        st.counts.json(),
+        jset(&st.cases),
+        shadow::active(),
+        shadow::checked_frees(),
+        jlist(&st.sample)
+    );
+    if nviol > 0 {
+        1
+    } else {
+        0
+    }
+}
+
+fn engine_overflow(args: &Args) -> i32 {
+    let seed = args.u64("seed", 1);
+    let mut st = overflow::OStats::new();
+    let mut nviol = 0;
+    for entry in 0..overflow::ENTRIES.len() {
+        if let Err(v) = overflow::parent(entry, &mut st) {
+            if v.oracle == "harness" {
+                eprintln!("harness problem: {}", v.msg);
+                return 3;
+            }
+            emit_violation(&v, "overflow", seed, &format!("entry={}", entry), &[]);
+            nviol += 1;
+        }
+    }
+    println!(
+        "@@{{\"t\":\"stats\",\"engine\":\"overflow\",\"counts\":{},\"sets\":{{\"overflow_cases\":{}}},\"hooked\":{},\"sample\":{}}}",
+        st.counts.json(),
+        jset(&st.cases),
+        cfg!(triomphe_verif),
+        jlist(&st.sample)
+    );
+    if nviol > 0 {
+        1
+    } else {
+        0
+    }
+}
+
+#[cfg(feature = "full")]
+fn engine_serde(args: &Args) -> i32 {
+    let seed = args.u64("seed", 1);
+    let n = args.u64("n", 20) as usize;
+    let mut st = tv::serde_eng::SdStats::new();
+    let viols = tv::serde_eng::run(seed, n, &mut st);
+    for v in &viols {
+        if v.oracle == "harness" {
+            eprintln!("harness problem: {}", v.msg);
+            return 3;
+        }
+        emit_violation(v, "serde", seed, "", &[]);
+    }
+    println!(
+        "@@{{\"t\":\"stats\",\"engine\":\"serde\",\"counts\":{},\"sets\":{{\"serde_cases\":{}}},\"shadow\":{},\"sample\":{}}}",
+        st.counts.json(),
+        jset(&st.cases),
+        shadow::active(),
+        jlist(&st.sample)
+    );
+    if viols.is_empty() {
+        0
+    } else {
+        1
     }
 }
